@@ -85,10 +85,13 @@ def _case(draw):
     for d in docs:      # in every stage, so that a deleting stage root cannot leave the references dangling
         d['items'] = [kv for kv in d['items'] if kv[0] not in ('anchor', 'strs')]
         d['items'].append(['anchor', tdoc.mp([('deep', tdoc.sq([tdoc.sc(1), tdoc.sc(2)], flow=True))], flow=True)])
+    # a reference written before its (mutable) target, in the first and in the last document
+    for d in (docs[0], docs[-1]):
+        d['items'] = [['fwd', tdoc.raw('anchor.deep', '!xref')]] + [kv for kv in d['items'] if kv[0] != 'fwd']
     docs[0]['items'].append(['strs', tdoc.sq([tdoc.sc('s'), tdoc.sc('', q='single'), tdoc.sc('yes', q='double'), tdoc.sc('multi\nline')])])
     ops = draw(st.lists(st.tuples(st.sampled_from(['reeval', 'set', 'del', 'append', 'nested', 'attr', 'deepcopy', 'reeval']),
                                   st.integers(0, 9), st.integers(0, 9)), min_size=1, max_size=8))
-    return {'docs': docs, 'ops': [list(o) for o in ops], 'ndyn': ctr[0]}
+    return {'docs': docs, 'ops': [list(o) for o in ops], 'ndyn': ctr[0], 'shared_ctx': draw(st.booleans())}
 
 
 def strategy():
@@ -179,7 +182,10 @@ def run_case(case):
     texts = [tdoc.render(d) for d in case['docs']]
     src = '\nsources:\n' + '\n'.join(texts)
     vfrec.reset()
-    status, cfg = O.try_call(O.build_config, texts)
+    from awesomeyaml import EvalContext
+    # one user-supplied evaluation context reused for every evaluation of the case, or a fresh default one each time
+    ctx = EvalContext() if case.get('shared_ctx') else None
+    status, cfg = O.try_call(lambda: Config.build(*texts, raw_yaml=True, eval_ctx=ctx))
     if status != 'ok':
         if type(cfg).__name__ in ('MergeError', 'PremergeError'):
             return Outcome(labels=['skip-merge-error'])
@@ -189,7 +195,7 @@ def run_case(case):
     _no_nodes(cfg, 'cfg', src)
     mirror(source, cfg, [], src)
     first = cmp_repr(cfg)
-    labels = {'dyn=%d' % min(case['ndyn'], 4), 'stages=%d' % len(texts)}
+    labels = {'dyn=%d' % min(case['ndyn'], 4), 'stages=%d' % len(texts), 'ctx=' + ('shared' if ctx is not None else 'fresh')}
     mutated = False
     nontrivial = False
     hist = []
@@ -210,7 +216,7 @@ def run_case(case):
         hist.append(op)
         labels.add('op=' + op)
         if op == 'reeval':
-            again = Config(source)
+            again = Config(source, eval_ctx=ctx)
             _no_nodes(again, 'cfg(re-evaluated)', src)
             if cmp_repr(again) != first:
                 raise Violation(f'C11: evaluating the kept source again gives {again!r}, the first evaluation gave {first!r} (history {hist}){src}')
